@@ -1,7 +1,7 @@
 """C08 — layout never changes the tree.
 Every G_ref sentence (CPython-valid or not) x every single layout rewrite at every applicable site: newline style, indentation unit, BOM,
 final newline, trailing whitespace, comment after code, inserted blank / whitespace-only / comment-only / form-feed lines, backslash line
-joins between tokens outside brackets, line breaks (+ indentation, + comment) between tokens inside brackets, redundant parentheses around
+joins between tokens outside brackets, at the very start of a statement line and directly after its indentation (LF, CRLF, lone CR), line breaks (+ indentation, + comment) between tokens inside brackets, redundant parentheses around
 every expression occurrence. A rewrite counts only if CPython parses base and variant to the same tree (or rejects both); then the real
 parser must accept both or neither, and the trees must be equal up to ranges."""
 import time, json, ast
@@ -17,6 +17,7 @@ GLOBAL_LAYOUTS += ['indent1', 'indent2tabs', 'indent8']
 INSERT_LINES = ['', '   ', '# c', '\x0c', '\t# c', '        # é', ' \t']
 LINE_ENDS = [' ', '\t', ' # c', '\x0c', ' #']
 IN_BRACKET = ['\n', '\n        ', ' # c\n  ', '\r\n\t', '\r', ' # c\r\t', '\n\n \t', '\n# c\n \t', '\n\n\t ']
+LINE_START_JOINS = ['\n', '\r\n', '\r']
 OUT_BRACKET = [' \\\n', '\\\n        ', ' \\\r\n', ' \\\r', '\\\r\t']
 
 
@@ -93,6 +94,17 @@ def _site_variants(toks, base, data, lines, spans):
             yield 'line-end:' + repr(end), '\n'.join(lines[:j] + [lines[j] + end] + lines[j + 1:])
         if lines[j].startswith(' '):
             yield 'formfeed-before-indent', '\n'.join(lines[:j] + ['\x0c' + lines[j]] + lines[j + 1:])
+        # explicit line joining at the very start of a physical line and inside its indentation, with each kind of line break
+        # (the indentation of the joined line is what precedes the first backslash if anything does, else what follows the join;
+        # a join in the middle of the indentation would change the indentation and is therefore not a layout-only rewrite)
+        if lines[j].strip():
+            ind = len(lines[j]) - len(lines[j].lstrip(' '))
+            for nl in LINE_START_JOINS:
+                yield 'join-at-line-start:' + repr(nl), '\n'.join(lines[:j] + ['\\' + nl + lines[j]] + lines[j + 1:])
+                if ind:
+                    # after the whole indentation: what precedes the backslash is the indentation, whatever follows the join
+                    yield 'join-after-indent:' + repr(nl), '\n'.join(lines[:j] + [lines[j][:ind] + '\\' + nl + lines[j][ind:]] + lines[j + 1:])
+                    yield 'join-after-indent-more:' + repr(nl), '\n'.join(lines[:j] + [lines[j][:ind] + '\\' + nl + '  ' + lines[j][ind:]] + lines[j + 1:])
     # token-gap sites
     real = [t for t in toks if t not in ('NL', 'IND', 'DED')]
     depths = token_depths(real)
